@@ -484,3 +484,174 @@ Fixpoint diag_share_steps (a b : sdb) (steps : list share_step) :=
   end.
 Definition diag_share (c : sdb * list share_step) :=
   let '(s, steps) := c in diag_share_steps s (sd_load (sd_dump s)) steps.
+
+(* ---- operations after a restore: what "answers every later request as the original" means for ONE instance ----
+   An operation is any function of the instance's attributes (answer + new attributes).  It `op_exported` when answer and
+   new exported attributes are functions of the exported attributes alone (agree_on: same value under every attribute of
+   the `parameter` table that the parameter loop carries).  Proofs/ImpExp_proofs.v: after dump -> load into a fresh
+   instance EVERY sequence of such operations is answered as by the original (restore_equiv_history); an operation that
+   reads an attribute outside the table is not covered, and the statement is false for it (restore_nonexported_refuted).
+   The premise "reads only exported attributes" is tied to the code by the attribute census of the driver: for the
+   state-store classes every attribute a live instance carries is in its regenerated table (chk_census below). *)
+Definition op_exported {R : Type} (t : list (pystr * ptype)) (sp : list pystr) (step : fields -> fields * R) : Prop :=
+  forall o o', agree_on t sp o o' ->
+    snd (step o') = snd (step o) /\ agree_on t sp (fst (step o)) (fst (step o')).
+Fixpoint run_steps {R : Type} (steps : list (fields -> fields * R)) (o : fields) : list R :=
+  match steps with [] => [] | f :: r => let '(o', x) := f o in x :: run_steps r o' end.
+
+(* ---- the relying party's state store: idpyoidc.client.current.Current ----
+   _db : state -> record (a dict), _map : bound key (nonce, subject, session id, logout state) -> state. *)
+Definition s__db : pystr := [95;100;98]%N.                                            (* "_db" *)
+Definition s__map : pystr := [95;109;97;112]%N.                                       (* "_map" *)
+Definition s_nonce : pystr := [110;111;110;99;101]%N.                                 (* "nonce" *)
+Record cur := { c_db : list (pystr * pyval); c_map : list (pystr * pystr) }.
+Definition cur_empty : cur := {| c_db := []; c_map := [] |}.
+
+Inductive cop :=
+| CSet (k : pystr) (v : list (pystr * pyval))        (* set(key, info) *)
+| CUpd (k : pystr) (v : list (pystr * pyval))        (* update(key, info) *)
+| CBind (fro to : pystr)                             (* bind_key *)
+| CRemove (k : pystr)                                (* remove_state *)
+| CBase (k : pystr)                                  (* get_base_key *)
+| CGet (k : pystr)                                   (* get *)
+| CKeys                                              (* keys() *)
+| CSnap                                              (* the whole store, as exported *)
+| CRestore.                                          (* dump -> load into a fresh instance; the original is discarded *)
+Inductive cout := CUnit | CDictR (d : list (pystr * pyval)) | CStrR (s : pystr) | CKeysR (l : list pystr)
+                | CStateR (db : list (pystr * pyval)) (m : list (pystr * pystr)) | CErrR (e : exc) | CUnmodelled.
+
+Definition rec_nonce (db : list (pystr * pyval)) (st : pystr) : option pyval :=
+  match assoc st db with Some (VDict r) => assoc s_nonce r | _ => None end.
+Definition merge (cur0 info : list (pystr * pyval)) : list (pystr * pyval) :=
+  fold_left (fun acc p => aset (fst p) (snd p) acc) info cur0.
+Definition cur_fields (c : cur) : fields :=
+  [(s__db, VDict (c_db c)); (s__map, VDict (map (fun p => (fst p, VStr (snd p))) (c_map c)))].
+Definition cur_fresh : fields := [(s__db, VDict []); (s__map, VDict [])].
+Fixpoint strs_of (d : list (pystr * pyval)) : option (list (pystr * pystr)) :=
+  match d with
+  | [] => Some []
+  | (k, VStr s) :: r => match strs_of r with Some l => Some ((k, s) :: l) | None => None end
+  | _ => None
+  end.
+Definition cur_of_fields (o : fields) : option cur :=
+  match assoc s__db o, assoc s__map o with
+  | Some (VDict d), Some (VDict m) => option_map (Build_cur d) (strs_of m)
+  | _, _ => None
+  end.
+(* ImpExp.dump of the store, ImpExp.load into Current() - through the `parameter` table t of the class *)
+Definition cur_restore (t : list (pystr * ptype)) (c : cur) : res cur :=
+  D <- dump_fields t [] (cur_fields c) ;;
+  o <- load_fields t [] cur_fresh D ;;
+  match cur_of_fields o with Some c' => Ok c' | None => Unmodelled end.
+
+Definition cur_step (t : list (pystr * ptype)) (c : cur) (o : cop) : cur * cout :=
+  match o with
+  | CSet k v => ({| c_db := aset k (VDict v) (c_db c); c_map := c_map c |}, CUnit)
+  | CUpd k info =>
+      match assoc k (c_db c) with
+      | None => ({| c_db := aset k (VDict info) (c_db c); c_map := c_map c |}, CDictR info)
+      | Some (VDict r) =>
+          let info' := match assoc s_nonce r with
+                       | Some n => match assoc s_nonce info with
+                                   | Some n' => if pyval_eqb n' n then info else adel s_nonce info
+                                   | None => info
+                                   end
+                       | None => info
+                       end in
+          let r' := merge r info' in
+          ({| c_db := aset k (VDict r') (c_db c); c_map := c_map c |}, CDictR r')
+      | Some _ => (c, CUnmodelled)
+      end
+  | CBind fro to =>
+      let clash := match assoc fro (c_map c) with
+                   | Some old => negb (str_eqb old to)
+                                 && match rec_nonce (c_db c) old with Some (VStr n) => str_eqb n fro | _ => false end
+                   | None => false
+                   end in
+      if clash then (c, CErrR ValueError)
+      else ({| c_db := c_db c; c_map := aset fro to (c_map c) |}, CUnit)
+  | CRemove k =>
+      if has_key k (c_db c)
+      then ({| c_db := adel k (c_db c); c_map := filter (fun p => negb (str_eqb (snd p) k)) (c_map c) |}, CUnit)
+      else (c, CUnit)
+  | CBase k => (c, match assoc k (c_map c) with Some s => CStrR s | None => CErrR KeyError end)
+  | CGet k => (c, match assoc k (c_db c) with Some (VDict (x :: r)) => CDictR (x :: r) | _ => CErrR KeyError end)
+  | CKeys => (c, CKeysR (map fst (c_db c)))
+  | CSnap => (c, CStateR (c_db c) (c_map c))
+  | CRestore => match cur_restore t c with Ok c' => (c', CUnit) | Err e => (c, CErrR e) | Unmodelled => (c, CUnmodelled) end
+  end.
+Fixpoint cur_run (t : list (pystr * ptype)) (c : cur) (ops : list cop) : list cout :=
+  match ops with [] => [] | o :: r => let '(c', x) := cur_step t c o in x :: cur_run t c' r end.
+Fixpoint cur_exec (t : list (pystr * ptype)) (c : cur) (ops : list cop) : cur :=
+  match ops with [] => c | o :: r => cur_exec t (fst (cur_step t c o)) r end.
+
+(* the same store with an auxiliary index (state -> the keys bound to it) that remove_state walks instead of the whole
+   map and that is NOT in the `parameter` table: a restored instance starts with the fresh (empty) index *)
+Record curi := { i_cur : cur; i_bound : list (pystr * list pystr) }.
+Definition curi_empty : curi := {| i_cur := cur_empty; i_bound := [] |}.
+Definition bound_of (b : list (pystr * list pystr)) (st : pystr) : list pystr :=
+  match assoc st b with Some l => l | None => [] end.
+Definition curi_step (t : list (pystr * ptype)) (ci : curi) (o : cop) : curi * cout :=
+  match o with
+  | CBind fro to =>
+      let '(c', x) := cur_step t (i_cur ci) o in
+      match x with
+      | CUnit => ({| i_cur := c'; i_bound := aset to (bound_of (i_bound ci) to ++ [fro]) (i_bound ci) |}, x)
+      | _ => (ci, x)
+      end
+  | CRemove k =>
+      let c := i_cur ci in
+      if has_key k (c_db c)
+      then ({| i_cur := {| c_db := adel k (c_db c);
+                           c_map := filter (fun p => negb (str_in (fst p) (bound_of (i_bound ci) k) && str_eqb (snd p) k)) (c_map c) |};
+               i_bound := adel k (i_bound ci) |}, CUnit)
+      else (ci, CUnit)
+  | CRestore => match cur_restore t (i_cur ci) with
+                | Ok c' => ({| i_cur := c'; i_bound := [] |}, CUnit)
+                | Err e => (ci, CErrR e) | Unmodelled => (ci, CUnmodelled)
+                end
+  | _ => let '(c', x) := cur_step t (i_cur ci) o in ({| i_cur := c'; i_bound := i_bound ci |}, x)
+  end.
+Fixpoint curi_run (t : list (pystr * ptype)) (ci : curi) (ops : list cop) : list cout :=
+  match ops with [] => [] | o :: r => let '(c', x) := curi_step t ci o in x :: curi_run t c' r end.
+
+(* ---- correspondence: a history of calls on a real Current (incl. export -> import into Current()) with what each
+        call answered ---- *)
+Definition cout_eqb (a b : cout) : bool :=
+  match a, b with
+  | CUnit, CUnit => true
+  | CDictR x, CDictR y => pyval_eqb (VDict x) (VDict y)
+  | CStrR x, CStrR y => str_eqb x y
+  | CKeysR x, CKeysR y => list_eqb str_eqb x y
+  | CStateR d m, CStateR d' m' => pyval_eqb (VDict d) (VDict d') && list_eqb (fun p q => str_eqb (fst p) (fst q) && str_eqb (snd p) (snd q)) m m'
+  | CErrR e, CErrR f => exc_eqb e f
+  | _, _ => false
+  end.
+Fixpoint chk_cur_from (t : list (pystr * ptype)) (c : cur) (tr : list (cop * cout)) : bool :=
+  match tr with
+  | [] => true
+  | (o, x) :: r => let '(c', y) := cur_step t c o in
+                   match y with CUnmodelled => true | _ => cout_eqb y x && chk_cur_from t c' r end
+  end.
+Definition chk_cur (tabs : list (pystr * impexp_class)) (cls : pystr) (tr : list (cop * cout)) : bool :=
+  chk_cur_from (class_table tabs cls) cur_empty tr.
+Definition diag_cur (tabs : list (pystr * impexp_class)) (cls : pystr) (tr : list (cop * cout)) : list cout :=
+  cur_run (class_table tabs cls) cur_empty (map fst tr).
+
+(* ---- attribute census: (class, the attribute names a live instance of it carries) against the regenerated tables.
+   For a class whose instances are pure state (closed = true: tokens, grants, tree nodes, the RP's store) every
+   attribute must be carried by the parameter loop or a special load/dump function, be a constructor argument
+   (init_args) or be listed as a transient. *)
+Definition class_init_args (tabs : list (pystr * impexp_class)) (c : pystr) : list pystr :=
+  match assoc c tabs with Some k => ic_init_args k | None => [] end.
+Definition pair_in (c a : pystr) (l : list (pystr * pystr)) : bool :=
+  existsb (fun p => str_eqb c (fst p) && str_eqb a (snd p)) l.
+Definition census_attr_ok (tabs : list (pystr * impexp_class)) (transient : list (pystr * pystr)) (c a : pystr) : bool :=
+  has_key a (class_table tabs c) || has_key a (class_special tabs c) || str_in a (class_init_args tabs c) || pair_in c a transient.
+Definition chk_census (tabs : list (pystr * impexp_class)) (closed : list pystr) (transient : list (pystr * pystr))
+    (c : pystr * list pystr) : bool :=
+  let '(cls, attrs) := c in
+  if str_in cls closed then has_key cls tabs && forallb (census_attr_ok tabs transient cls) attrs else has_key cls tabs.
+Definition diag_census (tabs : list (pystr * impexp_class)) (closed : list pystr) (transient : list (pystr * pystr))
+    (c : pystr * list pystr) : list pystr :=
+  let '(cls, attrs) := c in filter (fun a => negb (census_attr_ok tabs transient cls a)) attrs.
